@@ -7,8 +7,9 @@ import KeepVerif.Proofs.C19Flat
 
 * wire layer (`Proofs/C19Wire`): `varint_roundtrip`, `wire_roundtrip` (every admissible field list,
   i.e. every message of every schema);
-* typed layer (`Proofs/C19Flat`): `flat_roundtrip`, `unmarshal_marshal` (generic over all flat
-  message specs and all value lists), `unmarshal_ok_post`;
+* typed layer (`Proofs/C19Flat`): `flat_roundtrip`, `unmarshal_marshal`, `unmarshalF_marshalF`
+  (generic over all message specs — scalar, repeated, packed, embedded-message and map fields —
+  and all value lists), `unmarshal_ok_post`;
 * this file: the T1 tie of every schema to the Go descriptors (`Gen/C19.lean`, regenerated),
   per-type instances, the defects of the unrepaired tree, and the monitor tie.
 
@@ -20,7 +21,8 @@ open KeepVerif.Gen
 
 /-! ## T1: the schemas used by the model are the schemas compiled into the Go binary -/
 
-/-- flat specs against the generated descriptors (a changed `.proto`/`pb.go` breaks this proof) -/
+/-- every spec of the model against the generated descriptors (a changed `.proto`/`pb.go`
+    breaks this proof) -/
 theorem schema_tie_flat :
     schemaCode simple3.fields = C19.entry_SignatureShare ∧
     schemaCode simple3.fields = C19.dkg_TSSRoundOneMessage ∧
@@ -45,57 +47,97 @@ theorem schema_tie_flat :
     schemaCode signature.fields = C19.tecdsa_Signature ∧
     schemaCode signingDone.fields = C19.tbtc_SigningDoneMessage ∧
     schemaCode redemptionSpec.fields = C19.tbtc_RedemptionProposal ∧
-    schemaCode movingFundsSpec.fields = C19.tbtc_MovingFundsProposal := by decide
+    schemaCode movingFundsSpec.fields = C19.tbtc_MovingFundsProposal ∧
+    schemaCode depositSweepSpec.fields = C19.tbtc_DepositSweepProposal ∧
+    schemaCode coordinationSpec.fields = C19.tbtc_CoordinationMessage ∧
+    schemaCode peerSharesSpec.fields = C19.gjkr_PeerShares ∧
+    schemaCode preParamsSpec.fields = C19.dkg_PreParams ∧
+    schemaCode privateKeyShareSpec.fields = C19.tecdsa_PrivateKeyShare ∧
+    schemaCode signerSpec.fields = C19.tbtc_Signer ∧
+    schemaCode walletSpec.fields = C19.tbtc_Wallet := by decide
 
-/-- field numbers / kinds the hand-composed decoders select (kinds: 6 message, 1x repeated,
-    2x map<uint32,·>), against the generated descriptors. -/
+/-- specs parameterised by a value converter / library parser: the schema does not depend on it -/
+theorem schema_tie_param (cv cv' : Bytes → Option Bytes) :
+    schemaCode (mapSpec3 cv).fields = C19.gjkr_SecretSharesAccusations ∧
+    schemaCode (mapSpec3 cv).fields = C19.gjkr_PointsAccusations ∧
+    schemaCode (mapSpec3 cv).fields = C19.gjkr_MisbehavedEphemeralKeys ∧
+    schemaCode (mapSpec3 cv).fields = C19.gjkr_EphemeralPublicKey ∧
+    schemaCode (mapSpec3 cv).fields = C19.dkg_EphemeralPublicKeyMessage ∧
+    schemaCode (mapSpec3 cv).fields = C19.signing_EphemeralPublicKeyMessage ∧
+    schemaCode (mapSpec3 cv).fields = C19.signing_TSSRoundTwoMessage ∧
+    schemaCode (mapSpec4 cv).fields = C19.dkg_TSSRoundTwoMessage ∧
+    schemaCode (mapSpec4 cv).fields = C19.signing_TSSRoundOneMessage ∧
+    schemaCode (repSpec cv).fields = C19.gjkr_MemberCommitments ∧
+    schemaCode (repSpec cv).fields = C19.gjkr_MemberPublicKeySharePoints ∧
+    schemaCode (thresholdSignerSpec cv cv').fields = C19.registry_ThresholdSigner ∧
+    schemaCode (membershipSpec cv cv').fields = C19.registry_Membership ∧
+    schemaCode (identitySpec cv).fields = C19.net_Identity :=
+  ⟨rfl, rfl, rfl, rfl, rfl, rfl, rfl, rfl, rfl, rfl, rfl, rfl, rfl, rfl⟩
+
+/-- embedded messages selected inside the `post` functions (kinds: 6 message, 1x repeated) -/
 theorem schema_tie_composed :
-    C19.dkg_TSSRoundTwoMessage = [1, 0, 2, 2, 3, 22, 4, 3] ∧
-    C19.signing_TSSRoundOneMessage = [1, 0, 2, 2, 3, 22, 4, 3] ∧
-    C19.signing_TSSRoundTwoMessage = [1, 0, 2, 22, 3, 3] ∧
-    C19.gjkr_SecretSharesAccusations = [1, 0, 2, 22, 3, 3] ∧
-    C19.gjkr_PointsAccusations = [1, 0, 2, 22, 3, 3] ∧
-    C19.gjkr_MisbehavedEphemeralKeys = [1, 0, 2, 22, 3, 3] ∧
-    C19.gjkr_PeerShares = [1, 0, 2, 26, 3, 3] ∧
     C19.gjkr_PeerShares_Shares = [1, 2, 2, 2] ∧
-    C19.tbtc_CoordinationMessage = [1, 0, 2, 1, 3, 2, 4, 6] ∧
     C19.tbtc_CoordinationProposal = [1, 0, 2, 2] ∧
-    C19.tbtc_DepositSweepProposal = [1, 16, 2, 2, 3, 11] ∧
     C19.tbtc_DepositSweepProposal_DepositKey = [1, 2, 2, 0] ∧
-    C19.tbtc_Signer = [1, 6, 2, 0, 3, 2] ∧
-    C19.tbtc_Wallet = [1, 2, 2, 13] ∧
-    C19.dkg_PreParams = [1, 6, 2, 6] ∧
     C19.dkg_PreParams_LocalPreParams = [1, 6, 2, 2, 3, 2, 4, 2, 5, 2, 6, 2, 7, 2, 8, 2] ∧
     C19.dkg_PreParams_PrivateKey = [1, 6, 2, 2, 3, 2] ∧
     C19.dkg_PreParams_PublicKey = [1, 2] ∧
     C19.google_protobuf_Timestamp = [1, 5, 2, 4] ∧
-    C19.tecdsa_PrivateKeyShare = [1, 6] ∧
     C19.tecdsa_LocalPartySaveData = [1, 6, 2, 6, 3, 12, 4, 12, 5, 12, 6, 12, 7, 16, 8, 12, 9, 6] ∧
     C19.tecdsa_LocalPartySaveData_LocalPreParams = [1, 6, 2, 2, 3, 2, 4, 2, 5, 2, 6, 2, 7, 2, 8, 2] ∧
     C19.tecdsa_LocalPartySaveData_LocalPreParams_PrivateKey = [1, 2, 2, 2, 3, 2] ∧
     C19.tecdsa_LocalPartySaveData_LocalSecrets = [1, 2, 2, 2] ∧
-    C19.tecdsa_LocalPartySaveData_ECPoint = [1, 2, 2, 2] ∧
-    C19.gjkr_EphemeralPublicKey = [1, 0, 2, 22, 3, 3] ∧
-    C19.dkg_EphemeralPublicKeyMessage = [1, 0, 2, 22, 3, 3] ∧
-    C19.signing_EphemeralPublicKeyMessage = [1, 0, 2, 22, 3, 3] ∧
-    C19.gjkr_MemberCommitments = [1, 0, 2, 12, 3, 3] ∧
-    C19.gjkr_MemberPublicKeySharePoints = [1, 0, 2, 12, 3, 3] ∧
-    C19.registry_ThresholdSigner = [1, 0, 2, 2, 3, 3, 4, 22, 5, 13] ∧
-    C19.registry_Membership = [1, 2, 2, 3] ∧
-    C19.net_Identity = [1, 2] := by decide
+    C19.tecdsa_LocalPartySaveData_ECPoint = [1, 2, 2, 2] := by decide
 
-/-- every flat spec of the model is an admissible schema (hypothesis of `unmarshal_marshal`) -/
-theorem flat_specs_schemaOk :
-    SchemaOk simple3.fields ∧ SchemaOk finalization.fields ∧ SchemaOk announcement.fields ∧
-    SchemaOk hashSig.fields ∧ SchemaOk act1.fields ∧ SchemaOk act2.fields ∧ SchemaOk act3.fields ∧
-    SchemaOk heartbeat.fields ∧ SchemaOk movedFundsSweep.fields ∧ SchemaOk signature.fields ∧
-    SchemaOk signingDone.fields ∧ SchemaOk redemptionSpec.fields ∧ SchemaOk movingFundsSpec.fields := by
-  refine ⟨?_, ?_, ?_, ?_, ?_, ?_, ?_, ?_, ?_, ?_, ?_, ?_, ?_⟩ <;>
-    (constructor
-     · decide
-     · intro s hs; simp [simple3, finalization, announcement, hashSig, act1, act2, act3, heartbeat,
-         movedFundsSweep, signature, signingDone, redemptionSpec, movingFundsSpec] at hs; rcases hs with h | h | h | h | h <;>
-         (try subst h) <;> simp_all)
+/-! ## every spec of the dispatch table is an admissible schema -/
+
+def schemaOkB (S : List FSpec) : Bool :=
+  decide (S.map (·.num)).Nodup && S.all fun s => decide (1 ≤ s.num) && decide (s.num ≤ 536870911)
+
+theorem schemaOk_of_b (S : List FSpec) (h : schemaOkB S = true) : SchemaOk S := by
+  simp only [schemaOkB, Bool.and_eq_true, decide_eq_true_eq, List.all_eq_true] at h
+  exact ⟨h.1, fun s hs => h.2 s hs⟩
+
+/-- the schema of a table entry does not depend on the oracle -/
+theorem table_fields_indep : ∀ e ∈ table, ∀ (o : Oracle) (d : Bool),
+    (e.2 o d).fields = (e.2 [] false).fields := by
+  intro e he
+  simp only [table, List.mem_cons, List.not_mem_nil, or_false] at he
+  rcases he with h | h | h | h | h | h | h | h | h | h | h | h | h | h | h | h | h | h | h | h | h | h |
+    h | h | h | h | h | h | h | h | h | h | h | h | h | h | h | h | h | h | h | h | h | h <;>
+    (subst h; intro o d; rfl)
+
+/-- all 44 schemas of the table are admissible -/
+theorem table_schemaOk : table.all (fun e => schemaOkB (e.2 [] false).fields) = true := by decide
+
+theorem specOf_mem (o : Oracle) (d : Bool) (ty : Nat) (M : MsgSpec) (h : specOf o d ty = some M) :
+    ∃ e ∈ table, M = e.2 o d := by
+  unfold specOf at h
+  cases he : table[ty]? with
+  | none => simp [he] at h
+  | some e =>
+    simp only [he, Option.map_some, Option.some.injEq] at h
+    exact ⟨e, List.mem_of_getElem? he, h.symm⟩
+
+/-- every spec of the dispatch table has an admissible schema -/
+theorem specOf_schemaOk (o : Oracle) (d : Bool) (ty : Nat) (M : MsgSpec)
+    (h : specOf o d ty = some M) : SchemaOk M.fields := by
+  obtain ⟨e, he, rfl⟩ := specOf_mem o d ty M h
+  apply schemaOk_of_b
+  rw [table_fields_indep e he o d]
+  exact (List.all_eq_true.1 table_schemaOk) e he
+
+/-- both oracle readings of a type have the same schema -/
+theorem specOf_fields_eq (o : Oracle) (ty : Nat) (Mf Mt : MsgSpec)
+    (hf : specOf o false ty = some Mf) (ht : specOf o true ty = some Mt) : Mt.fields = Mf.fields := by
+  unfold specOf at hf ht
+  cases he : table[ty]? with
+  | none => simp [he] at hf
+  | some e =>
+    simp only [he, Option.map_some, Option.some.injEq] at hf ht
+    subst hf; subst ht
+    have hm := List.mem_of_getElem? he
+    rw [table_fields_indep e hm o true, table_fields_indep e hm o false]
 
 /-! ## per-type instances -/
 
@@ -105,7 +147,7 @@ theorem simple3_roundtrip (s : Nat) (p sess : Bytes) (hs : s ≤ 255)
     (hp : p.length < 2 ^ 64) (hl : sess.length < 2 ^ 64) (hu : isUtf8 sess = true) :
     simple3.unmarshal (simple3.marshal [.n s, .b p, .b sess]) =
       some (simple3.marshal [.n s, .b p, .b sess]) := by
-  apply unmarshal_marshal _ _ flat_specs_schemaOk.1
+  apply unmarshal_marshal _ _ (schemaOk_of_b _ (by decide))
   · exact ⟨Nat.lt_of_le_of_lt hs (by decide), hp, ⟨hl, hu⟩, trivial⟩
   · simp [simple3, idxOk, hs]
 
@@ -125,16 +167,21 @@ theorem hashSig_roundtrip (s : Nat) (h sg pk sess : Bytes) (hs : s ≤ 255) (hh 
     (hu : isUtf8 sess = true) :
     hashSig.unmarshal (hashSig.marshal [.n s, .b h, .b sg, .b pk, .b sess]) =
       some (hashSig.marshal [.n s, .b h, .b sg, .b pk, .b sess]) := by
-  apply unmarshal_marshal _ _ flat_specs_schemaOk.2.2.2.1
+  apply unmarshal_marshal _ _ (schemaOk_of_b _ (by decide))
   · exact ⟨Nat.lt_of_le_of_lt hs (by decide), (show h.length < 2 ^ 64 by rw [hh]; decide), h1, h2, ⟨h3, hu⟩, trivial⟩
   · simp [hashSig, idxOk, hs, hh]
 
 theorem hashSig_ok_valid (bs out : Bytes) (h : hashSig.unmarshal bs = some out) :
     ∃ s hsh sg pk sess, s ≤ 255 ∧ hsh.length = 32 ∧
       out = hashSig.marshal [.n s, .b hsh, .b sg, .b pk, .b sess] := by
-  obtain ⟨fs, vs, vs', _, _, h3, h4⟩ := unmarshal_ok_post hashSig bs out h
-  rcases vs with _ | ⟨a, _ | ⟨b, _ | ⟨c, _ | ⟨d, _ | ⟨e, _ | ⟨f, t⟩⟩⟩⟩⟩⟩ <;> try (simp [hashSig] at h3)
-  cases a <;> cases b <;> cases c <;> cases d <;> cases e <;> simp [hashSig] at h3
+  obtain ⟨fs, vs, vs', _, h2, h3, h4⟩ := unmarshal_ok_post hashSig bs out h
+  have hv : vs = [.n (lastVarint fs 1 % 4294967296), .b (lastLen fs 2), .b (lastLen fs 3),
+      .b (lastLen fs 4), .b (lastLen fs 5)] := by
+    simp only [decFlat, hashSig, List.mapM_cons, List.mapM_nil, decField] at h2
+    split at h2 <;> simp at h2
+    exact h2.symm
+  subst hv
+  simp [hashSig] at h3
   obtain ⟨⟨hi, hl⟩, rfl⟩ := h3
   exact ⟨_, _, _, _, _, by simpa [idxOk] using hi, hl, h4⟩
 
@@ -142,7 +189,7 @@ theorem hashSig_ok_valid (bs out : Bytes) (h : hashSig.unmarshal bs = some out) 
 theorem act2_roundtrip (nonce ch p : Bytes) (hn : nonce.length = 8) (hc : ch.length = 32)
     (hl : p.length < 2 ^ 64) (hu : isUtf8 p = true) :
     act2.unmarshal (act2.marshal [.b nonce, .b ch, .b p]) = some (act2.marshal [.b nonce, .b ch, .b p]) := by
-  apply unmarshal_marshal _ _ flat_specs_schemaOk.2.2.2.2.2.1
+  apply unmarshal_marshal _ _ (schemaOk_of_b _ (by decide))
   · exact ⟨(show nonce.length < 2 ^ 64 by rw [hn]; decide), (show ch.length < 2 ^ 64 by rw [hc]; decide), ⟨hl, hu⟩, trivial⟩
   · simp [act2, hn, hc]
 
@@ -160,7 +207,7 @@ theorem movingFunds_roundtrip (ws : List Bytes) (fee : Bytes) (hw : ∀ w ∈ ws
     (hf : fee.length < 2 ^ 64) (hz : stripZeros fee = fee) :
     movingFundsSpec.unmarshal (movingFundsSpec.marshal [.l ws, .b fee]) =
       some (movingFundsSpec.marshal [.l ws, .b fee]) := by
-  apply unmarshal_marshal _ _ flat_specs_schemaOk.2.2.2.2.2.2.2.2.2.2.2.2
+  apply unmarshal_marshal _ _ (schemaOk_of_b _ (by decide))
   · refine ⟨?_, hf, trivial⟩
     intro b hb
     show b.length < 2 ^ 64
@@ -184,11 +231,65 @@ theorem redemption_roundtrip (scripts : List Bytes) (fee : Bytes)
     (hs : ∀ b ∈ scripts, b.length < 2 ^ 64) (hf : fee.length < 2 ^ 64) (hz : stripZeros fee = fee) :
     redemptionSpec.unmarshal (redemptionSpec.marshal [.l scripts, .b fee]) =
       some (redemptionSpec.marshal [.l scripts, .b fee]) := by
-  apply unmarshal_marshal _ _ flat_specs_schemaOk.2.2.2.2.2.2.2.2.2.2.2.1
+  apply unmarshal_marshal _ _ (schemaOk_of_b _ (by decide))
   · exact ⟨hs, hf, trivial⟩
   · simp [redemptionSpec, hz]
 
-/-! ## defects of the unrepaired tree (F6) and the repaired behaviour -/
+/-! ## every type of the dispatch table: round trip, validity, totality -/
+
+/-- normalising form of `unmarshal_marshal`: whatever the validation turns the values into is what
+    comes back -/
+theorem unmarshal_marshal_post (M : MsgSpec) (vs vs' : List Val) (hS : SchemaOk M.fields)
+    (hc : Canon M.fields vs) (hp : M.post vs = some vs') :
+    M.unmarshal (M.marshal vs) = some (M.marshal vs') := by
+  unfold MsgSpec.unmarshal MsgSpec.marshal MsgSpec.unmarshalF
+  rw [wire_roundtrip _ (encFlat_fieldOk M.fields vs hS.2 hc)]
+  simp [flat_roundtrip M.fields vs hS hc, hp]
+
+/-- **`_roundtrip` for every decoder type** (all 44 specs of the table, both oracle readings):
+    the encoding of a value list that matches the type's schema and that the type's validation
+    accepts unchanged is decoded and re-marshalled to the same bytes. -/
+theorem spec_roundtrip (o : Oracle) (d : Bool) (ty : Nat) (M : MsgSpec) (vs : List Val)
+    (hM : specOf o d ty = some M) (hc : Canon M.fields vs) (hwf : M.post vs = some vs) :
+    unmarshalD o d ty (M.marshal vs) = some (some (M.marshal vs)) := by
+  unfold unmarshalD
+  rw [hM]
+  simp [unmarshal_marshal M vs (specOf_schemaOk o d ty M hM) hc hwf]
+
+/-- **`_ok_valid` for every decoder type**: an accepted input was parsed, typed-decoded, and the
+    output is the marshalling of what the type's validation produced (so every invariant the
+    validation enforces holds of the accepted value). -/
+theorem spec_ok_valid (o : Oracle) (d : Bool) (ty : Nat) (M : MsgSpec) (bs out : Bytes)
+    (hM : specOf o d ty = some M) (h : unmarshalD o d ty bs = some (some out)) :
+    ∃ fs vs vs', parseMsg bs = some fs ∧ decFlat M.fields fs = some vs ∧
+      M.post vs = some vs' ∧ out = M.marshal vs' := by
+  unfold unmarshalD at h
+  rw [hM] at h
+  simp only [Option.some.injEq] at h
+  exact unmarshal_ok_post M bs out h
+
+/-- **decoding is total** in the repaired models: for every type name, oracle and byte string
+    the outcome is "not predicted", an error, or a value — the model type has no panic outcome,
+    and the pre-repair outcomes that were panics (`Orig.panic`) are errors now
+    (`signerOrig_partial`). -/
+theorem unmarshal_total (o : Oracle) (ty : Nat) (bs : Bytes) :
+    unmarshal o ty bs = none ∨ unmarshal o ty bs = some none ∨
+      ∃ out, unmarshal o ty bs = some (some out) := by
+  rcases h : unmarshal o ty bs with _ | _ | out
+  · exact Or.inl rfl
+  · exact Or.inr (Or.inl rfl)
+  · exact Or.inr (Or.inr ⟨out, rfl⟩)
+
+/-- every spec decoder: error or value -/
+theorem spec_total (M : MsgSpec) (bs : Bytes) :
+    M.unmarshal bs = none ∨ ∃ out, M.unmarshal bs = some out := by
+  cases M.unmarshal bs with
+  | none => exact Or.inl rfl
+  | some out => exact Or.inr ⟨out, rfl⟩
+
+/-! ## defects of the unrepaired tree, one block per finding -/
+
+/-! ### finding c54bee6 — `tbtc.signer.Unmarshal`: nil wallet / unparsable public key -/
 
 /-- **counterexample**: on the empty byte string the original `signer.Unmarshal` dereferences the
     absent wallet — a panic, not an error (replay: `tbtc.Signer -`). -/
@@ -197,67 +298,101 @@ theorem signerOrig_counterexample : signerOrig [] = .panic := by decide
 /-- the repaired decoder returns an error on the same input -/
 theorem signer_empty_err : signer [] = none := by decide
 
+theorem decFlat_signer (fs : List Field) :
+    decFlat signerSpec.fields fs =
+      (subMsg fs 1).map fun w => [.m w, .n (lastVarint fs 2 % 4294967296), .b (lastLen fs 3)] := by
+  simp only [decFlat, signerSpec, List.mapM_cons, List.mapM_nil, decField]
+  cases subMsg fs 1 <;> rfl
+
+theorem decFlat_wallet (w : List Field) :
+    decFlat walletSpec.fields w =
+      if (lens w 2).all isUtf8 then some [.b (lastLen w 1), .l (lens w 2)] else none := by
+  simp only [decFlat, walletSpec, List.mapM_cons, List.mapM_nil, decField]
+  split <;> rfl
+
 /-- **partial statement that did hold**: whatever the repaired decoder accepts, the original
-    accepted with the same value, and wherever the original returned an error or panicked the
+    accepted with the same value; wherever the original returned an error or panicked the
     repaired one returns an error — the fixes only turn panics and truncations into errors. -/
 theorem signerOrig_partial (bs : Bytes) :
     (∀ out, signer bs = some out → signerOrig bs = .ok out) ∧
     (signerOrig bs = .err → signer bs = none) ∧
     (signerOrig bs = .panic → signer bs = none) := by
-  unfold signerOrig signer
+  unfold signerOrig signer MsgSpec.unmarshal MsgSpec.unmarshalF
   cases parseMsg bs with
   | none => simp
   | some fs =>
+    simp only [Option.bind_eq_bind, Option.bind_some, decFlat_signer]
     cases h1 : subMsg fs 1 with
-    | none => simp [h1]
+    | none => simp
     | some ow =>
       cases ow with
-      | none => simp [h1]
+      | none => simp [signerSpec]
       | some w =>
-        by_cases h2 : strOk w 2 = true
-        · cases h3 : privateKeyShare (lastLen fs 3) with
-          | none => simp [h1, h2, h3, guard']
-          | some pks =>
-            by_cases h4 : uncompressedOk (lastLen w 1) = true
-            · by_cases h5 : idxOk (lastVarint fs 2 % 4294967296) = true
-              · have h6 : lastVarint fs 2 % 4294967296 % 256 = lastVarint fs 2 % 4294967296 :=
-                  Nat.mod_eq_of_lt (by simp [idxOk] at h5; omega)
-                simp [h1, h2, h3, h4, h5, h6, guard']
-              · simp [h1, h2, h3, h4, h5, guard']
-            · simp [h1, h2, h3, h4, guard']
-        · simp [h1, h2, guard']
+        simp only [Option.map_some, Option.bind_some, signerSpec, MsgSpec.unmarshalF, decFlat_wallet]
+        by_cases h2 : (lens w 2).all isUtf8 = true
+        · simp only [h2, if_true, Option.bind_some, walletSpec]
+          by_cases h4 : uncompressedOk (lastLen w 1) = true
+          · by_cases h5 : idxOk (lastVarint fs 2 % 4294967296) = true
+            · have h6 : lastVarint fs 2 % 4294967296 % 256 = lastVarint fs 2 % 4294967296 :=
+                Nat.mod_eq_of_lt (by simp [idxOk] at h5; omega)
+              cases h3 : privateKeyShare (lastLen fs 3) with
+              | none => simp [h4, h5, h3, guard']
+              | some pks => simp [h4, h5, h3, h6, guard', MsgSpec.marshal]
+            · cases h3 : privateKeyShare (lastLen fs 3) <;> simp [h4, h5, h3, guard']
+          · cases h3 : privateKeyShare (lastLen fs 3) <;> simp [h4, h3]
+        · simp [h2]
 
-/-- **counterexample** (`ThresholdSigner`, storage record): member index 256 was decoded as 0
-    (`uint8` truncation) — an accepted value that does not round-trip (replay:
-    `registry.ThresholdSigner 088002…`); the repaired decoder rejects it whatever the library
-    parsers say about the rest. -/
-theorem thresholdSignerOrig_counterexample : thresholdSignerOrigIndex [8, 128, 2] = some 0 := by decide
+/-! ### finding 33a5031 — `tbtc.signer.Unmarshal`: member index truncated to uint8 -/
 
-theorem thresholdSigner_fixed_rejects (cvH cvD : Bytes → Option Bytes) :
-    thresholdSigner cvH cvD [8, 128, 2] = none := by
-  have hp : parseMsg [8, 128, 2] = some [(1, WVal.varint 256)] := by decide
-  have hm : mapBytes [(1, WVal.varint 256)] 4 = some [] := by decide
-  have hs : (strOk [(1, WVal.varint 256)] 3 && strOk [(1, WVal.varint 256)] 5) = true := by decide
-  have hi : idxOk (lastVarint [(1, WVal.varint 256)] 1 % 4294967296) = false := by decide
-  simp [thresholdSigner, hp, hm, hs, hi, guard']
+/-- **counterexample**: index 256 (field 2) was decoded as 0 -/
+theorem signerOrigIndex_counterexample : signerOrigIndex [16, 128, 2] = some 0 := by decide
 
-/-- the repaired `signer.Unmarshal` never yields the third outcome: it is a total function into
-    error-or-value (statement of totality for the fixed model; the model type has no panic). -/
-theorem signer_total (bs : Bytes) : signer bs = none ∨ ∃ out, signer bs = some out := by
-  cases signer bs with
-  | none => exact Or.inl rfl
-  | some out => exact Or.inr ⟨out, rfl⟩
+/-- every signer the repaired decoder accepts carries an index ≤ 255 (no truncation possible) -/
+theorem signer_ok_index (bs out : Bytes) (h : signer bs = some out) :
+    ∃ fs, parseMsg bs = some fs ∧ lastVarint fs 2 % 4294967296 ≤ 255 := by
+  obtain ⟨fs, vs, vs', h1, h2, h3, _⟩ := unmarshal_ok_post signerSpec bs out h
+  refine ⟨fs, h1, ?_⟩
+  rw [decFlat_signer] at h2
+  cases hs : subMsg fs 1 with
+  | none => simp [hs] at h2
+  | some ow =>
+    simp only [hs, Option.map_some, Option.some.injEq] at h2
+    subst h2
+    cases ow with
+    | none => simp [signerSpec] at h3
+    | some w =>
+      simp only [signerSpec] at h3
+      cases hw : walletSpec.unmarshalF w with
+      | none => simp [hw] at h3
+      | some w' =>
+        by_cases hi : idxOk (lastVarint fs 2 % 4294967296) = true
+        · simpa [idxOk] using hi
+        · simp [hw, hi, guard'] at h3
 
-/-- **counterexample** (gjkr accusations): sender 5, an *empty* key for member 3, session "s".
-    The original decoder swallowed the key error and accepted a message that carries only the
-    sender: the session id is silently dropped. -/
+/-! ### finding 192bde1 — gjkr accusation messages: key-map error swallowed -/
+
+/-- **counterexample**: sender 5, an *empty* key for member 3, session "s". The original decoder
+    swallowed the key error and accepted a message that carries only the sender: the session id
+    is silently dropped. -/
 theorem accusationsOrig_counterexample :
     accusationsOrig [8, 5, 18, 4, 8, 3, 18, 0, 26, 1, 115] = some [8, 5] := by decide
 
 /-- the repaired decoder rejects it -/
 theorem accusations_fixed_rejects :
-    mapMsg false 2 3 privCv [8, 5, 18, 4, 8, 3, 18, 0, 26, 1, 115] = none := by
-  decide
+    (mapSpec3 privCv).unmarshal [8, 5, 18, 4, 8, 3, 18, 0, 26, 1, 115] = none := by decide
+
+/-! ### finding 45827cd — `ThresholdSigner.Unmarshal`: indexes truncated to uint8 -/
+
+/-- **counterexample**: member index 256 was decoded as 0 (replay `registry.ThresholdSigner 088002…`) -/
+theorem thresholdSignerOrig_counterexample : thresholdSignerOrigIndex [8, 128, 2] = some 0 := by decide
+
+/-- the repaired decoder rejects it whatever the library parsers say about the rest -/
+theorem thresholdSigner_fixed_rejects (cvH cvD : Bytes → Option Bytes) :
+    (thresholdSignerSpec cvH cvD).unmarshal [8, 128, 2] = none := by
+  have hp : parseMsg [8, 128, 2] = some [(1, WVal.varint 256)] := by decide
+  have hd : decFlat [⟨1, .u32⟩, ⟨2, .bytes⟩, ⟨3, .str⟩, ⟨4, .rmsg 22⟩, ⟨5, .rstr⟩] [(1, WVal.varint 256)] =
+      some [.n 256, .b [], .b [], .ms [], .l []] := by decide
+  simp [MsgSpec.unmarshal, MsgSpec.unmarshalF, hp, hd, thresholdSignerSpec, idxOk, guard']
 
 /-! ## monitor tie -/
 
@@ -265,11 +400,11 @@ def toObs : Option Bytes → Obs
   | some out => .ok out true
   | none => .err
 
-/-- the monitor accepts every output of the model, for every type, oracle and input — on the
-    round-trip stream under the hypothesis the stream claims (the model reproduces the input,
-    which `unmarshal_marshal` proves for the flat specs). Correspondence (impl = model on the
+/-- the monitor accepts every output of the model, for every type, oracle and input; for `wf`
+    ops under the hypothesis that the model reproduces the input — which `holds_model_wf` below
+    discharges for every well-formed value of every type. Correspondence (impl = model on the
     sampled inputs) + this theorem ⇒ the property on the implementation's observed behaviour. -/
-theorem holds_model (o : Oracle) (ty : String) (wf : Bool) (bs : Bytes) (r : Option Bytes)
+theorem holds_model (o : Oracle) (ty : Nat) (wf : Bool) (bs : Bytes) (r : Option Bytes)
     (h : unmarshal o ty bs = some r) (hwf : wf = true → r = some bs) :
     holds o ty wf bs (toObs r) = true := by
   cases wf with
@@ -278,6 +413,28 @@ theorem holds_model (o : Oracle) (ty : String) (wf : Bool) (bs : Bytes) (r : Opt
     have := hwf rfl
     subst this
     simp [toObs, holds, propHolds, specHolds, h]
+
+/-- the model on the encoding of a well-formed value of any type: both oracle readings accept it
+    unchanged, so the prediction is "ok, same bytes" … -/
+theorem model_wf (o : Oracle) (ty : Nat) (Mf Mt : MsgSpec) (vs : List Val)
+    (hf : specOf o false ty = some Mf) (ht : specOf o true ty = some Mt)
+    (hc : Canon Mf.fields vs) (hpf : Mf.post vs = some vs) (hpt : Mt.post vs = some vs) :
+    unmarshal o ty (Mf.marshal vs) = some (some (Mf.marshal vs)) := by
+  have e : Mt.fields = Mf.fields := specOf_fields_eq o ty Mf Mt hf ht
+  have hm : Mt.marshal vs = Mf.marshal vs := by simp [MsgSpec.marshal, e]
+  unfold unmarshal
+  rw [spec_roundtrip o false ty Mf vs hf hc hpf]
+  have := spec_roundtrip o true ty Mt vs ht (e ▸ hc) hpt
+  rw [hm] at this
+  simp [this]
+
+/-- … and **the monitor's round-trip clause holds of the model for every well-formed value of
+    every type** (no sampling involved). -/
+theorem holds_model_wf (o : Oracle) (ty : Nat) (Mf Mt : MsgSpec) (vs : List Val)
+    (hf : specOf o false ty = some Mf) (ht : specOf o true ty = some Mt)
+    (hc : Canon Mf.fields vs) (hpf : Mf.post vs = some vs) (hpt : Mt.post vs = some vs) :
+    holds o ty true (Mf.marshal vs) (toObs (some (Mf.marshal vs))) = true :=
+  holds_model o ty true _ _ (model_wf o ty Mf Mt vs hf ht hc hpf hpt) (fun _ => rfl)
 
 /-- the model-independent clause rejects panics, hangs, non-idempotent values, and a rejected or
     altered round trip, whatever the type -/
@@ -301,12 +458,16 @@ example : simple3.unmarshal [8, 7, 18, 5, 1] = none := by decide
 example : simple3.unmarshal [12] = none := by decide
 example : simple3.unmarshal [26, 1, 255] = none := by decide
 -- the monitor rejects an accepted value that dropped a field, and a rejected canonical encoding
-example : holds [] "entry.SignatureShare" false [8, 7, 26, 1, 115] (.ok [8, 7] true) = false := by decide
-example : holds [] "entry.SignatureShare" false [8, 7, 26, 1, 115] .err = false := by decide
-example : holds [] "entry.SignatureShare" true [8, 7, 26, 1, 115] (.ok [8, 7, 26, 1, 115] true) = true := by decide
+example : holds [] 0 false [8, 7, 26, 1, 115] (.ok [8, 7] true) = false := by decide
+example : holds [] 0 false [8, 7, 26, 1, 115] .err = false := by decide
+example : holds [] 0 true [8, 7, 26, 1, 115] (.ok [8, 7, 26, 1, 115] true) = true := by decide
+-- the Noop proposal decoder ignores its input; an unknown type id is not predicted
+example : unmarshal [] noopId [1, 2, 3] = some (some []) := by decide
+example : unmarshal [] 45 [] = none := by decide
 -- library parsing is a parameter: the same bytes with an accepting / rejecting / missing oracle
-example : unmarshal [(105, [1, 2], some [1, 2])] "libp2p.Identity" [10, 2, 1, 2] = some (some [10, 2, 1, 2]) := by decide
-example : unmarshal [(105, [1, 2], none)] "libp2p.Identity" [10, 2, 1, 2] = some none := by decide
-example : unmarshal [] "libp2p.Identity" [10, 2, 1, 2] = none := by decide
+example : unmarshal [(105, [1, 2], some [1, 2])] 43 [10, 2, 1, 2] = some (some [10, 2, 1, 2]) := by decide
+example : unmarshal [(105, [1, 2], none)] 43 [10, 2, 1, 2] = some none := by decide
+example : unmarshal [] 43 [10, 2, 1, 2] = none := by decide
+example : (table[43]?).map (·.1) = some "libp2p.Identity" := rfl
 
 end KeepVerif.C19
